@@ -117,8 +117,11 @@ func c15CoreSpecs(verifyAb [][2]string, cantFail map[string]edt.Assumption, proo
 			},
 		},
 		// --- output: suite ‖ 0x03 ‖ compress(8·Gamma) ‖ 0x00 ----------------------------------------------
-		termSpec("primitives/ed25519/extra/ecvrf", "gammaToHash", nil,
-			"Sum(H(sha512.New, agg([0]=(4), [1]=(3)), CompressedEdwardsY.SetEdwardsPoint(EdwardsPoint.MulByCofactor($gamma)), agg([0]=(0))))"),
+		// (absorbed piece by piece, or as one buffer built from the same pieces in the same order)
+		termSpecAny("primitives/ed25519/extra/ecvrf", "gammaToHash", nil,
+			"Sum(H(sha512.New, agg([0]=(4), [1]=(3)), CompressedEdwardsY.SetEdwardsPoint(EdwardsPoint.MulByCofactor($gamma)), agg([0]=(0))))",
+			"Sum(H(sha512.New, cat(agg([0]=(4), [1]=(3)), CompressedEdwardsY.SetEdwardsPoint(EdwardsPoint.MulByCofactor($gamma)), 0)))",
+			"Sum(H(sha512.New, cat(4, 3, CompressedEdwardsY.SetEdwardsPoint(EdwardsPoint.MulByCofactor($gamma)), 0)))"),
 		termSpec("primitives/ed25519/extra/ecvrf", "encodeToCurveH2cSuite", nil,
 			"res0(h2c.Edwards25519_XMD_SHA512_ELL2_NU(@primitives/ed25519/extra/ecvrf.h2cDST, cat($encodeToCurveSalt, $alphaString))) ; err(h2c.Edwards25519_XMD_SHA512_ELL2_NU(@primitives/ed25519/extra/ecvrf.h2cDST, cat($encodeToCurveSalt, $alphaString)))"),
 		// --- verification -----------------------------------------------------------------------------------
